@@ -626,6 +626,28 @@ func main() {
 		emitStrList("vectorSizeTable", tbl, len(tbl) > 0)
 	}
 
+	// --- distance functions: statement shapes
+	for _, name := range []string{"euclideanDistance", "angularDistance"} {
+		fd := funcDecl("collection.go", name)
+		var stmts []string
+		if fd != nil {
+			ast.Inspect(fd.Body, func(x ast.Node) bool {
+				switch st := x.(type) {
+				case *ast.AssignStmt:
+					stmts = append(stmts, src(st))
+				case *ast.IfStmt:
+					stmts = append(stmts, "if "+src(st.Cond))
+				case *ast.ReturnStmt:
+					stmts = append(stmts, "return "+src(st.Results[0]))
+				case *ast.RangeStmt:
+					stmts = append(stmts, "range "+src(st.X))
+				}
+				return true
+			})
+		}
+		emitStrList(name+"Shape", stmts, len(stmts) > 0)
+	}
+
 	// --- query: keyword table, comparison operators, parser call chain, operator cases
 	{
 		var kws []string
